@@ -332,7 +332,24 @@ def check_stack_default(ctx, rp, q, rule='R-STACKDEFAULT'):
     if 'stackdim' not in params:
         return 0
     ctx.rule(rule, 'default stack dimension: the unlimited dimension wins; a time-like name is only the fallback when no dimension is unlimited')
-    assigns = [st for st in iter_stmts(fn.body) if isinstance(st, ast.Assign) and any(isinstance(t, ast.Name) and t.id == 'stackdim' for t in st.targets)]
+    # the names the choice travels through: stackdim and every local that is copied into it (a helper's result variable after inlining)
+    tracked = set(['stackdim'])
+    copies = []
+    loopvars = set(n_.id for st in iter_stmts(fn.body) if isinstance(st, ast.For) for n_ in ast.walk(st.target) if isinstance(n_, ast.Name))
+    changed = True
+    while changed:
+        changed = False
+        for st in iter_stmts(fn.body):
+            if isinstance(st, ast.Assign) and len(st.targets) == 1 and isinstance(st.targets[0], ast.Name) and st.targets[0].id in tracked and isinstance(st.value, ast.Name) \
+                    and st.value.id not in tracked and st.value.id not in loopvars:
+                tracked.add(st.value.id)
+                changed = True
+    for st in iter_stmts(fn.body):
+        if isinstance(st, ast.Assign) and len(st.targets) == 1 and isinstance(st.targets[0], ast.Name) and st.targets[0].id in tracked and \
+                ((isinstance(st.value, ast.Name) and st.value.id in tracked) or (isinstance(st.value, ast.Constant) and st.value.value is None)):
+            copies.append(st)
+    assigns = [st for st in iter_stmts(fn.body) if isinstance(st, ast.Assign) and any(isinstance(t, ast.Name) and t.id in tracked for t in st.targets) and st not in copies]
+    none_tests = tuple('%s is None' % t for t in tracked) + tuple('not %s' % t for t in tracked)
 
     def chain(st):
         out, p = [], getattr(st, '_parent', None)
@@ -354,13 +371,13 @@ def check_stack_default(ctx, rp, q, rule='R-STACKDEFAULT'):
     bad = None
     for a2 in others:
         ch = chain(a2)
-        none_guard = any(isinstance(p_, ast.If) and norm(p_.test) in ('stackdim is None', 'not stackdim') and any(c_ is b for b in p_.body) and p_.lineno > a1.lineno for p_, c_ in ch)
+        none_guard = any(isinstance(p_, ast.If) and norm(p_.test) in none_tests and any(c_ is b for b in p_.body) and p_.lineno > a1.lineno for p_, c_ in ch)
         in_else = bool(loop1) and any(p_ is loop1[0] and any(c_ is b for b in p_.orelse) for p_, c_ in ch)
         if a2.lineno > a1.lineno:
             if not (none_guard or in_else):
                 bad = (a2, 'this later choice (%s) also runs when an unlimited dimension was found and replaces it' % norm(a2))
         else:
-            g1 = any(isinstance(p_, ast.If) and norm(p_.test) in ('stackdim is None', 'not stackdim') and p_.lineno > a2.lineno for p_, c_ in chain(a1))
+            g1 = any(isinstance(p_, ast.If) and norm(p_.test) in none_tests and p_.lineno > a2.lineno for p_, c_ in chain(a1))
             e1 = any(isinstance(p_, (ast.For, ast.While)) and any(c_ is b for b in p_.orelse) for p_, c_ in chain(a1))
             if g1 or e1:
                 bad = (a1, 'the unlimited dimension is looked for only when the earlier choice (%s) found nothing' % norm(a2))
